@@ -138,7 +138,7 @@ func (w *c15World) sg(s string) (c15Signer, error) {
 
 func (w *c15World) observe() (c15Obs, error) {
 	e := w.e
-	o := c15Obs{Price: e.App.StorageKeeper.GetParams(e.Ctx).CollateralPrice, Supply: e.Supply(c15Denom)}
+	o := c15Obs{Price: StorageParams(e).CollateralPrice, Supply: e.Supply(c15Denom)}
 	for _, p := range e.App.StorageKeeper.GetAllProviders(e.Ctx) {
 		// the store key is recovered through GetProviders: the iterator does not expose it
 		key, err := w.provKey(p)
@@ -937,9 +937,9 @@ func c15Histories(r *RunCtx, nh, nprov int, setRule bool) error {
 			price = 10_000_000_000
 		}
 		if price != 10_000_000_000 {
-			pr := w.e.App.StorageKeeper.GetParams(w.e.Ctx)
+			pr := StorageParams(w.e)
 			pr.CollateralPrice = price
-			w.e.App.StorageKeeper.SetParams(w.e.Ctx, pr)
+			GovSetStorageParams(w.e, pr)
 		}
 		if err := w.fundSpread(p, price); err != nil {
 			return err
@@ -1033,7 +1033,7 @@ func (h *c15Hist) scripted() error {
 		return c15Op{Kind: kind, Creator: Spell(w.addrs[id], up), Sg: c15Signer{id, up}, VB: true, Ip: c15Ips[0], IpOK: true, Keybase: "kb", Space: 1 << 30}
 	}
 	price := func(v int64) c15Op { return c15Op{Kind: "SetPrice", Sg: c15Signer{c15BadSg, false}, Value: v} }
-	P := e.App.StorageKeeper.GetParams(e.Ctx).CollateralPrice
+	P := StorageParams(e).CollateralPrice
 	steps := []func() error{
 		func() error { return top(1, 3*P) }, func() error { return top(2, P-1) }, func() error { return top(3, P) },
 		func() error { return h.step(mk("Shutdown", 1, false)) }, // shutdown without init
@@ -1098,7 +1098,7 @@ func (h *c15Hist) scriptedOutside() error {
 	mk := func(kind string, id int, up bool) c15Op {
 		return c15Op{Kind: kind, Creator: Spell(w.addrs[id], up), Sg: c15Signer{id, up}, VB: true, Ip: c15Ips[0], IpOK: true, Keybase: "kb", Space: 3}
 	}
-	P := e.App.StorageKeeper.GetParams(e.Ctx).CollateralPrice
+	P := StorageParams(e).CollateralPrice
 	for id := 1; id <= 3; id++ {
 		if err := e.Fund(w.addrs[id], c15Denom, 4*P); err != nil {
 			return err
